@@ -12,6 +12,7 @@ import NcVerif.Driver.IsoD
 import NcVerif.Driver.ConnectD
 import NcVerif.Driver.XmlD
 import NcVerif.Driver.JunosD
+import NcVerif.Driver.XmlDocD
 open NcVerif.Driver
 
 structure DState where
@@ -29,6 +30,7 @@ def stepLine (st : DState) (line : String) : DState × String :=
   | "xm" :: rest => (st, xmlCmd rest)
   | "js" :: rest => (st, junosCmd rest)
   | "xt" :: rest => (st, xmlTextCmd rest)
+  | "xd" :: rest => (st, xmlDocCmd rest)
   | "ss" :: rest => let (s', out) := sessionCmd st.sess rest; ({ st with sess := s' }, out)
   | _ => (st, "bad-model")
 
